@@ -168,6 +168,19 @@ class TypedExpression(NixExpression):
     tree_sitter_types: ClassVar[set[str]]
 
 
+def _float_literal(value: float) -> str:
+    """Spell a finite float as a Nix float token denoting the same value.
+
+    Nix only reads a number as a float when it has a `.`; repr() leaves it out
+    when there is an exponent (`1e+16`, `1e-07`), so it is put back (`1.0e+16`).
+    """
+    text = repr(value)
+    if "." not in text:
+        mantissa, exponent_mark, exponent = text.partition("e")
+        text = f"{mantissa}.0{exponent_mark}{exponent}"
+    return text
+
+
 def coerce_expression(value: Any) -> NixExpression:
     """Convert raw primitive values into NixExpression instances."""
     if isinstance(value, NixExpression):
@@ -189,7 +202,7 @@ def coerce_expression(value: Any) -> NixExpression:
             raise ValueError("Unsupported expression type: float must be finite")
         from nix_manipulator.expressions.float import FloatExpression
 
-        return FloatExpression(value=repr(value))
+        return FloatExpression(value=_float_literal(value))
     if isinstance(value, list):
         from nix_manipulator.expressions.list import NixList
 
